@@ -140,6 +140,22 @@ def space_and_conv(draw, classes=None, max_params=5):
   hostile = draw(st.sampled_from([False, False, True]))
   spec = draw(spaces.flat_space(1, max_params, hostile_names=hostile))
   conv = draw(conv_options(classes))
+  # a parameter that already is in "model form" (plain DOUBLE on [0, 1],
+  # DISCRETE spanning exactly [0, 1], INTEGER 0..1): a converter that treats
+  # such a parameter as needing no conversion still has to clip / snap
+  if draw(st.sampled_from([False, False, True])):
+    k = draw(st.integers(0, len(spec['params']) - 1))
+    nm = spec['params'][k]['name']
+    spec['params'][k] = draw(st.sampled_from([
+        {'name': nm, 'kind': 'DOUBLE', 'lo': 0.0, 'hi': 1.0, 'scale': None},
+        {'name': nm, 'kind': 'DOUBLE', 'lo': 0.0, 'hi': 1.0,
+         'scale': 'LINEAR'},
+        {'name': nm, 'kind': 'DISCRETE', 'values': [0.0, 0.5, 1.0],
+         'scale': None, 'auto_cast': False},
+        {'name': nm, 'kind': 'DISCRETE', 'values': [0.0, 0.25, 1.0],
+         'scale': 'LINEAR', 'auto_cast': True},
+        {'name': nm, 'kind': 'INTEGER', 'lo': 0, 'hi': 1, 'scale': None},
+    ]))
   spec, clamped = fit_space(spec, conv)
   return spec, conv, clamped
 
